@@ -162,7 +162,8 @@ def run(prog, ctx):
     ctx.floor("C10.D2", len(mstores), 1, "collocation matrix stores")
     for st in mstores:
         tg = tm.term(st.targets[0].slice)
-        v = tm.term(st.value)
+        stn = c.node_of(st)
+        v = R.normalise_positions(hz, tm.term(st.value), stn, tm)
         ok = tg[0] == "tuple" and len(tg) == 3
         why = "the matrix is not filled element-wise"
         if ok:
@@ -174,7 +175,16 @@ def run(prog, ctx):
             # both loops range over all points of dimension d
             loops = [l for l in R.enclosing_loops(st) if isinstance(l, ast.For)]
             rng = ("call", ("n", "range"), (("s", ("n", hz.params[2]), ("n", d)),), ())
-            if ok and not (len(loops) >= 2 and all(tm.term(l.iter) == rng for l in loops[-2:])):
+
+            def full_range(l):
+                it_ = R.normalise_positions(hz, tm.term(l.iter), c.node_of(l), tm)
+                if it_ == rng:
+                    return True
+                # enumerate over a list that was itself built over range(numPoints[d])
+                if it_[0] == "call" and it_[1] == ("n", "enumerate") and len(it_[2]) == 1 and it_[2][0][0] == "comp" and len(it_[2][0][3]) == 1:
+                    return R.normalise_positions(hz, it_[2][0][3][0][1], c.node_of(l), tm) == rng
+                return False
+            if ok and not (len(loops) >= 2 and all(full_range(l) for l in loops[-2:])):
                 ok = False
                 why = "the fill loops do not range over all numPoints[d] points"
         ctx.check(ok, "C10.D2", R.key_of(hz, "matrix-orientation"), hz.loc(st),
@@ -187,8 +197,9 @@ def run(prog, ctx):
     ok = len(reads) == 1 and len(writes) == 1
     why = "expected one pole read and one write-back"
     if ok:
-        rt, rv = tm.term(reads[0].targets[0].slice), tm.term(reads[0].value)
-        wt, wv = tm.term(writes[0].targets[0].slice), tm.term(writes[0].value)
+        rn_, wn_ = c.node_of(reads[0]), c.node_of(writes[0])
+        rt, rv = R.normalise_positions(hz, tm.term(reads[0].targets[0].slice), rn_, tm, resolve=False), R.normalise_positions(hz, tm.term(reads[0].value), rn_, tm, resolve=False)
+        wt, wv = R.normalise_positions(hz, tm.term(writes[0].targets[0].slice), wn_, tm, resolve=False), R.normalise_positions(hz, tm.term(writes[0].value), wn_, tm, resolve=False)
         i_r = rt[2] if rt[0] == "tuple" else None
         pos_r = rv[2][2] if rv[0] == "s" and rv[1] == ("n", gv) and rv[2][0] == "tuple" else None
         okr_ = pos_r is not None and pos_r[0] == "s" and pos_r[1][0] == "n" and pos_r[2] == i_r
@@ -208,6 +219,10 @@ def run(prog, ctx):
             t_ = tm.term(b.value)
             if RHSN is not None:
                 t_ = _replace_term(t_, ("n", RHSN), tm.term(rhs_ast))
+            for nm_ in {x[1] for x in subterms(t_) if x[0] == "n"} - {MAT, PV, ROW, HV}:
+                bs_ = [bb for bb in tm.env.bindings.get(nm_, []) if bb.kind == "assign"]
+                if len(tm.env.bindings.get(nm_, [])) == 1 and len(bs_) == 1 and isinstance(bs_[0].value, ast.Attribute):
+                    t_ = _replace_term(t_, ("n", nm_), tm.term(bs_[0].value))
             solves.append(t_)
     rhs = ("s", ("n", PV), ("tuple", ("n", ROW), ("slice", ("c", "None"), ("c", "None"), ("c", "None"))))
     direct = ("call", ("a", ("a", ("n", "np"), "linalg"), "solve"), (("n", MAT), rhs), ())
